@@ -98,7 +98,7 @@ def handouts(exclude_known: bool = True, only_known: bool = False, twin: bool = 
         for m in members:
             if not (0 <= m <= 2):
                 return True
-        if not (0 <= pick <= 3 and 0 <= op <= 2):
+        if not (0 <= pick <= 3 and 0 <= op <= 3):
             return True
         w = _mk(wl, members, swap)
         if len(w.keypairs) == 0:
@@ -142,6 +142,20 @@ def handouts(exclude_known: bool = True, only_known: bool = False, twin: bool = 
                 w.dump(f)
                 w2 = wl.Wallet.load(io.StringIO(f.getvalue()))
                 if _view(w2) != _view(w):
+                    return False
+                w = w2
+            elif op == 3:
+                # save, give the key back, save again, restart: what is on file is the wallet as it is now
+                if not had_unused:
+                    return True
+                f1 = io.StringIO()
+                w.dump(f1)
+                w.restore_annotated_public_key(k1, "reserved")
+                H.remove(k1)
+                f2 = io.StringIO()
+                w.dump(f2)
+                w2 = wl.Wallet.load(io.StringIO(f2.getvalue()))
+                if _view(w2) != _view(w) or not _inv(w2):
                     return False
                 w = w2
             if twin:
@@ -284,7 +298,7 @@ def atomic_save(twin: bool = False, real: bool = False):
         return fs.ops
     TOTAL = total_ops()
 
-    def real_crash_run(crash_at: int, had_old: bool) -> bool:
+    def real_crash_run(crash_at: int, had_old: bool, stale_temp: bool = False) -> bool:
         """Replay on the real file system: a child process runs the real save_wallet in a scratch directory and dies
         (os._exit) before file operation number crash_at; the parent then reads wallet.json."""
         import multiprocessing as mp
@@ -297,6 +311,9 @@ def atomic_save(twin: bool = False, real: bool = False):
             if had_old:
                 with open(os.path.join(d, "wallet.json"), "w") as f:
                     f.write(to)
+            if stale_temp:
+                with open(os.path.join(d, "wallet.json.new"), "w") as f:
+                    f.write(tn + tn + "leftover")
 
             def child():
                 os.chdir(d)
@@ -332,14 +349,15 @@ def atomic_save(twin: bool = False, real: bool = False):
                     return FW(f) if "w" in mode else f
 
                 class FakeOs:
-                    path = os.path
+                    def __getattr__(s, n):
+                        return getattr(os, n)
 
                     @staticmethod
                     def replace(a, b):
                         op()
                         return os.replace(a, b)
                 wl.open = opener
-                wl.os = FakeOs
+                wl.os = FakeOs()
                 wl.save_wallet(new)
                 os._exit(0)
             p = mp.get_context("fork").Process(target=child)
@@ -353,16 +371,20 @@ def atomic_save(twin: bool = False, real: bool = False):
         finally:
             shutil.rmtree(d, ignore_errors=True)
 
-    def check_atomic_save(crash_at: int, eager: bool, had_old: bool) -> bool:
+    def check_atomic_save(crash_at: int, eager: bool, had_old: bool, stale_temp: bool = False) -> bool:
         """
         post: _
         """
-        if not (0 <= crash_at <= TOTAL + 2):
+        if not (0 <= crash_at <= TOTAL + 4):
             return True
         if real:
-            return real_crash_run(crash_at, had_old)
+            return real_crash_run(crash_at, had_old, stale_temp)
         old, new, to, tn = texts()
-        fs = MemFS({"wallet.json": to} if had_old else {}, crash_at, eager)
+        files = {"wallet.json": to} if had_old else {}
+        if stale_temp:
+            # an earlier save died between writing the side file and the rename: a longer leftover is lying around
+            files["wallet.json.new"] = tn + tn + "leftover"
+        fs = MemFS(files, crash_at, eager)
         crashed = False
         with patched(wl, fs):
             try:
@@ -378,7 +400,7 @@ def atomic_save(twin: bool = False, real: bool = False):
             return not had_old
         return cur == tn or (had_old and cur == to)
 
-    return check_atomic_save, {"crash_at": TOTAL + 2, "eager": True, "had_old": True}
+    return check_atomic_save, {"crash_at": TOTAL + 4, "eager": True, "had_old": True, "stale_temp": False}
 
 
 def obligations(tier: str, known: List[str]) -> List[Ob]:
